@@ -82,7 +82,11 @@ class C18:
             scs = []
             for i in range(n):
                 r2 = harness.scenario_rng("C18-builds", rnd.getrandbits(30), i)
-                scs.append(pipeline.gen_scenario(r2, HPROFILE))
+                sc_ = pipeline.gen_scenario(r2, HPROFILE)
+                mc_ = sc_["program"][0][1]
+                if mc_["matching_cost_method"] == "zncc" and mc_.get("window_size", 5) == 1:
+                    mc_["window_size"] = 3  # zncc on 1-pixel windows is a constant volume by construction
+                scs.append(sc_)
             return {"harness": "builds", "scenarios": scs}
         r = rnd.random()
         if r < 0.45:
@@ -469,8 +473,16 @@ class C18:
                 ok_keys = [k for k, r in rows.items() if r.get("ok")]
                 if len(ok_keys) != len(rows):
                     if ok_keys:
-                        viol.append({"class": "C18.run_outcome_depends_on_build", "sig": {}, "scenario": i,
-                                     "failed": [list(k) for k in rows if k not in ok_keys]})
+                        failed = {k: r for k, r in rows.items() if k not in ok_keys}
+                        only_seq = all(k[0] == "False" for k in failed) and all(k[0] == "True" for k in ok_keys)
+                        excs = sorted({(r.get("exc"), r.get("where")) for r in failed.values()})
+                        viol.append({"class": "C18.run_outcome_depends_on_build",
+                                     "sig": {"only_sequential_build_fails": only_seq,
+                                             "exception": excs[0][0] if len(excs) == 1 else "several",
+                                             "in_confidence_kernel": all("cost_volume_confidence/" in (w_ or "")
+                                                                         for _, w_ in excs)},
+                                     "scenario": i, "where": [w_ for _, w_ in excs],
+                                     "failed": [list(k) for k in failed]})
                     continue
                 par = {k: r for k, r in rows.items() if k[0] == "True"}
                 full = {r["full"] for r in par.values()}
